@@ -1,7 +1,10 @@
 package props
 
 import (
+	"context"
+	"errors"
 	"fmt"
+	"net"
 	"strings"
 	"sync"
 	"sync/atomic"
@@ -43,7 +46,28 @@ func c16Call(c *core.Ctx, s string) {
 	}
 }
 
+// c16Lookups counts name-service activity of the process. ParseURI is a parser: its time is bounded by its input, so it
+// has no business with the resolver (whose time is bounded by nothing). The process-wide resolver is replaced by one that
+// only counts and refuses.
+var c16Lookups int32 //nolint:gochecknoglobals
+
+func c16InstallResolver() {
+	net.DefaultResolver = &net.Resolver{PreferGo: true, Dial: func(context.Context, string, string) (net.Conn, error) {
+		atomic.AddInt32(&c16Lookups, 1)
+
+		return nil, errors.New("C16: no name service in this process")
+	}}
+}
+
 func c16(c *core.Ctx) {
+	c16InstallResolver()
+	defer func() {
+		if n := atomic.LoadInt32(&c16Lookups); n > 0 {
+			c.Violate("name-service-contacted", "name-service-contacted", map[string]interface{}{
+				"problem": "ParseURI made the process contact the name service (a call whose duration does not depend on the input's length)", "connections_attempted": n})
+		}
+		c.Count("name_service_connections", int64(atomic.LoadInt32(&c16Lookups)))
+	}()
 	maxLen := int(c.N(5, 6))
 	if c.Config == "race" {
 		maxLen = 2
@@ -223,7 +247,9 @@ func c16(c *core.Ctx) {
 }
 
 func c16Random(r *gen.Rand, i int64) string {
-	hosts := []string{"example.org", "a", "1.2.3.4", "[::1]", "[fe80::1%25eth0]", "[fe80::1%eth0]", "[::1", "::1]", "[]", "[[::1]]", "[::1]x", "host:", ":", "", "ü.example", "%41", "a@b", "[/]", "[/a]", "[a/b]", "[example.org]", "[1.2.3.4]", "[.]",
+	hosts := []string{"1.2.3.4.5", "1.2.3.4.5.6.7.8.9", "0.0.0.0.0", "256.1.1.1", "01.02.03.004", "1.2.3", "1..2", "0x7f.1", "1.2.3.4.", "999999999999", "[1.2.3.4.5]",
+		"[fe80::1%\xe9th0]", "[fe80::1%\xc3\xa9th0]", "[::1%\xff]", "[fe80::1%25\xe2\x82\xac]", "[stun.example.org]", "[localhost]",
+		"example.org", "a", "1.2.3.4", "[::1]", "[fe80::1%25eth0]", "[fe80::1%eth0]", "[::1", "::1]", "[]", "[[::1]]", "[::1]x", "host:", ":", "", "ü.example", "%41", "a@b", "[/]", "[/a]", "[a/b]", "[example.org]", "[1.2.3.4]", "[.]",
 		"a%2541.example.org", "a%3Ab.example.org", "%5Bexample%5D", "%2525", "A.Example.ORG"}
 	ports := []string{"", ":3478", ":0", ":65535", ":65536", ":-1", ":", ":x", ":+80", ":99999999999999999999", "::", ":3478:1"}
 	queries := []string{"", "?transport=udp", "?transport=tcp", "?transport=", "?", "?&", "?transport=udp&transport=tcp", "?x=1", "?transport=udp&x", "?%zz", "?transport=%75dp", "#frag", "?;"}
@@ -254,7 +280,7 @@ func c16Random(r *gen.Rand, i int64) string {
 	case 5: // random bytes incl. control characters and invalid UTF-8
 		s = schemes[r.Intn(4)] + string(r.Bytes(r.Intn(40)))
 	case 6: // repeated structure
-		unit := []string{"[", "]", ":", "[::1]", "%25", "?", "a:", "[]"}[r.Intn(8)]
+		unit := []string{"[", "]", ":", "[::1]", "%25", "?", "a:", "[]", "1.", "255.", "0.", "9.9", "%e9"}[r.Intn(13)]
 		s = schemes[r.Intn(4)] + strings.Repeat(unit, r.Intn(200))
 	default: // very long inputs
 		n := r.PickInt([]int{4096, 65536, 1 << 20})
